@@ -4560,7 +4560,10 @@ impl<'a> Parser<'a> {
             vec![]
         };
 
-        if dialect_of!(self is BigQueryDialect | GenericDialect) {
+        // `WITH (..)` and `OPTIONS (..)` share one field: the view has one list or the other
+        if dialect_of!(self is BigQueryDialect | GenericDialect)
+            && matches!(options, CreateTableOptions::None)
+        {
             if let Some(opts) = self.maybe_parse_options(Keyword::OPTIONS)? {
                 if !opts.is_empty() {
                     options = CreateTableOptions::Options(opts);
